@@ -163,6 +163,13 @@ func (p *Program) SSA() *ssa.Program {
 	prog, pkgs := ssautil.AllPackages(p.rootsForSSA(), ssa.InstantiateGenerics)
 	_ = pkgs
 	prog.Build()
+	// an instance of a generic module function (readUnsigned[uint8]) is built with no package; it belongs to the package
+	// of the function it instantiates - the rules ask a function for its package to tell module code from library code
+	for fn := range ssautil.AllFunctions(prog) {
+		if fn.Pkg == nil && fn.Origin() != nil && fn.Origin() != fn && fn.Origin().Pkg != nil {
+			fn.Pkg = fn.Origin().Pkg
+		}
+	}
 	canonicaliseComparisons(prog)
 	p.ssaProg = prog
 	p.ssaPkgs = map[*types.Package]*ssa.Package{}
